@@ -103,7 +103,7 @@ func runCheck(prop, tier string) int {
 	seed := envInt("VERIF_SEED", 1)
 	if tier == "thorough" {
 		solverTimeoutMs = 60000
-		jobTimeLimit = 30 * time.Minute
+		jobTimeLimit = 4 * time.Hour
 	}
 	if v := envInt("GOSYM_JOBTIMEOUT", 0); v > 0 {
 		jobTimeLimit = time.Duration(v) * time.Second
@@ -137,13 +137,9 @@ func runCheck(prop, tier string) int {
 		cr.jobs = append(cr.jobs[k:], cr.jobs[:k]...)
 	}
 	cr.results = make([]*JobResult, len(cr.jobs))
-	inner := 1
-	if len(cr.jobs) < 16 && len(cr.jobs) > 0 {
-		inner = 16 / len(cr.jobs)
-	}
 	var wg sync.WaitGroup
 	var next int64 = -1
-	for w := 0; w < 16 && w < len(cr.jobs); w++ {
+	for w := 0; w < 24 && w < len(cr.jobs); w++ {
 		wg.Add(1)
 		go func() {
 			defer wg.Done()
@@ -152,7 +148,7 @@ func runCheck(prop, tier string) int {
 				if i >= len(cr.jobs) {
 					return
 				}
-				cr.results[i] = e.RunJob(cr.jobs[i], inner)
+				cr.results[i] = e.RunJob(cr.jobs[i], poolSize)
 			}
 		}()
 	}
@@ -562,10 +558,19 @@ func (cr *checkRun) validatePredictions(seed int64) (int, []string) {
 	}
 	vsolver := NewSolver()
 	defer vsolver.Close()
+	// validation is a sanity layer: short solver budget per model, bounded total time
+	saveTO := solverTimeoutMs
+	solverTimeoutMs = 2500
+	defer func() { solverTimeoutMs = saveTO }()
+	vstart := time.Now()
+	vbudget := 45 * time.Second
+	if cr.tier == "thorough" {
+		vbudget = 4 * time.Minute
+	}
 	// deterministic spread over jobs
 	for round := 0; round < 3 && len(picks) < maxPicks; round++ {
 		for ji, jr := range cr.results {
-			if len(picks) >= maxPicks {
+			if len(picks) >= maxPicks || time.Since(vstart) > vbudget {
 				break
 			}
 			var ok []*PathResult
